@@ -40,3 +40,39 @@ Definition validate_packets (dec : bool) (M : bmodel) (O : prog) : list (string 
                 | Some r => pkt_eqvb dec (path, ir) (path, r)
                 | None => false
                 end)) O.
+
+(* ---- diagnostics: which steps of a packet are not equivalent to the reference's ---- *)
+From FP Require Import Show.
+Open Scope string_scope.
+
+Definition e_valueless (s : estep) : bool := match s with EMarkZero _ _ _ | EPatch _ _ _ _ _ _ => true | _ => false end.
+
+Definition diff_enc (n : nat) (a b : list (nat * estep)) : list (string * string) :=
+  let live l := filter (fun x : nat * estep => negb (is_noop (snd x))) l in
+  let cmp (xs ys : list (nat * estep)) :=
+      if forall2b (step_eqvb n) xs ys then []
+      else [(join " " (map (fun x => show_estep (snd x)) xs), join " " (map (fun x => show_estep (snd x)) ys))] in
+  let at_ i l := filter (fun x : nat * estep => andb (Nat.eqb (fst x) i) (negb (e_valueless (snd x)))) (live l) in
+  let vl l := filter (fun x : nat * estep => e_valueless (snd x)) (live l) in
+  (flat_map (fun i => cmp (at_ i a) (at_ i b)) (seq 0 n ++ [undefined_mark]) ++ cmp (vl a) (vl b))%list.
+
+Definition diff_dec (n : nat) (a b : list (nat * dstep)) : list (string * string) :=
+  let live l := filter (fun x : nat * dstep => negb (d_noop (snd x))) l in
+  let cmp (xs ys : list (nat * dstep)) :=
+      if forall2b dstep_eqvb xs ys then []
+      else [(join " " (map (fun x => show_dstep (snd x)) xs), join " " (map (fun x => show_dstep (snd x)) ys))] in
+  let at_ i l := filter (fun x : nat * dstep => Nat.eqb (fst x) i) (live l) in
+  flat_map (fun i => cmp (at_ i a) (at_ i b)) (seq 0 n ++ [undefined_mark])%list.
+
+Definition diff_packets (dec : bool) (M : bmodel) (O : prog) : list (string * list (string * string)) :=
+  map (fun '(path, ir) =>
+         (path, match find_ir (ref_prog M (mk_of O)) path with
+                | Some r =>
+                    let n := Nat.max (ir_members ir) (ir_members r) in
+                    ((if Nat.eqb (ir_members ir) (ir_members r) then [] else [("members", "members")]) ++
+                     (if dec then diff_dec n (ir_dec ir) (ir_dec r) else diff_enc n (ir_enc ir) (ir_enc r)))%list
+                | None => [("no such packet", "-")]
+                end)) O.
+
+Definition show_diffs (d : list (string * list (string * string))) : string :=
+  join "%%" (map (fun '(path, l) => path ++ "==" ++ join "&&" (map (fun '(a, b) => a ++ "~~" ++ b) l)) d).
